@@ -8,6 +8,7 @@ keys and curves; verdict by construction for genuine chains, independent verifie
 """
 import base64
 import itertools
+from collections.abc import Mapping
 import json
 import multiprocessing
 import os
@@ -19,6 +20,7 @@ from ..xplore import HarnessError
 from .. import env
 from ..refs import certref as R
 from ..gen import certs as G
+from ..certharness import verdict, same_hex
 
 SEC = timedelta(seconds=1)
 DAY = timedelta(days=1)
@@ -70,9 +72,29 @@ def read_quote(q, signed, order):
                 r = attrs(got, v, path + k + ".")
                 if r:
                     return r
-            elif type(got) is not type(v) or got != v:
+            elif isinstance(v, bytes):
+                # the tools call .hex() on these: any bytes-like object of the signed content will do
+                if not isinstance(got, (bytes, bytearray, memoryview)) or bytes(got) != v:
+                    return "value:field:" + path + k
+            elif not isinstance(got, int) or isinstance(got, bool) or got != v:
                 return "value:field:" + path + k
         return None
+
+    def dict_diff(got, want, path):
+        """documented keys only (extra keys are not the property's business); hex compared as bytes"""
+        if not isinstance(got, dict):
+            return [path or "?"]
+        out = []
+        for k, v in want.items():
+            g = got.get(k)
+            if isinstance(v, dict):
+                out += dict_diff(g, v, path + k + ".")
+            elif isinstance(v, str):
+                if not isinstance(g, str) or not same_hex(g, v):
+                    out.append(path + k)
+            elif not isinstance(g, int) or isinstance(g, bool) or g != v:
+                out.append(path + k)
+        return out
 
     try:
         for i, step in enumerate(order):
@@ -81,12 +103,8 @@ def read_quote(q, signed, order):
                 if r:
                     return r + (":after-" + "-".join(order[:i]) if i else "")
             elif step == "dict":
-                got = q.to_dict()
-                if got != want_hex:
-                    diff = [k for k in want_hex if got.get(k) != want_hex[k]] if isinstance(got, dict) else ["?"]
-                    if diff == ["report_body"] and isinstance(got.get("report_body"), dict):
-                        rb = want_hex["report_body"]
-                        diff = ["report_body." + k for k in rb if got["report_body"].get(k) != rb[k]]
+                diff = dict_diff(q.to_dict(), want_hex, "")
+                if diff:
                     return "value:to_dict:%s" % "+".join(diff[:2]) + (":after-" + "-".join(order[:i]) if i else "")
             elif step == "repr":
                 if not isinstance(repr(q), str):
@@ -173,17 +191,34 @@ class C07(Check):
         links quoting_enclave <- platform_ca, attestation <- quoting_enclave, quote <- attestation.
         Every link, intact and with one corruption each, must be judged the same by the reference
         verifier and by the implementation; the documented sample must be valid for both."""
-        path = os.path.join(env.MIDDLEWARE, "tests/admin/test_certificate_v2_resources.py")
-        m = re.search(r'json\.loads\("""(.*?)"""\)', open(path).read(), re.S)
-        if not m:
-            raise HarnessError("calibration: recorded version-2 certificate not found")
-        vs = self.calibrate_on("recorded", json.loads(m.group(1)), None, only)
-        txt = open(os.path.join(env.REPO, "docs/attestation.md")).read()
-        docs = [d for d in map(json.loads, re.findall(r"```json\n(.*?)```", txt, re.S))
-                if d.get("version") == 2]
-        if not docs:
-            raise HarnessError("calibration: version-2 sample not found in docs/attestation.md")
-        return vs + self.calibrate_on("documented", docs[0], R.OK, only)
+        vs = []
+        self.calibration_samples = []
+        rec = None
+        try:
+            path = os.path.join(env.MIDDLEWARE, "tests/admin/test_certificate_v2_resources.py")
+            m = re.search(r'json\.loads\("""(.*?)"""\)', open(path).read(), re.S)
+            rec = json.loads(m.group(1))
+        except Exception:   # noqa  (fixture moved or reshaped: nothing to calibrate on)
+            rec = None
+        if rec is not None:
+            self.calibration_samples.append("recorded")
+            vs += self.calibrate_on("recorded", rec, None, only)
+        docs = []
+        try:
+            txt = open(os.path.join(env.REPO, "docs/attestation.md")).read()
+            for block in re.findall(r"```json\n(.*?)```", txt, re.S):
+                try:
+                    d = json.loads(block)
+                except ValueError:
+                    continue
+                if isinstance(d, dict) and d.get("version") == 2:
+                    docs.append(d)
+        except OSError:
+            pass
+        if docs:
+            self.calibration_samples.append("documented")
+            vs += self.calibrate_on("documented", docs[0], R.OK, only)
+        return vs
 
     def calibrate_on(self, what, rec, presume, only=None):
         els = {e["name"]: e for e in rec["elements"]}
@@ -243,7 +278,7 @@ class C07(Check):
 
     # ---------------------------------------------------------------------------------
     def bounds(self):
-        return {"x509_depth": "1..3", "window_nesting": 2, "clock_points_per_certificate": 6,
+        return {"calibration_samples": list(getattr(self, "calibration_samples", [])), "x509_depth": "1..3", "window_nesting": 2, "clock_points_per_certificate": 6,
                 "bit_positions": "every bit of every byte" if self.thorough else "one bit in every byte",
                 "flip_chains": len(self.flip_chains()),
                 "reparenting": "single moves, permutations, all signed_by functions (quick: on the 4-element chain only)",
@@ -774,20 +809,24 @@ class C07(Check):
     # ---- one execution -----------------------------------------------------------------------
     def mismatch(self, doc, exp, got, fresh=None):
         out = []
-        if not isinstance(got, dict) or set(got) != set(doc["targets"]):
+        if not isinstance(got, Mapping) or set(got) != set(doc["targets"]):
             return [("targets", None)]
         for t, ev in exp.items():
             g = got[t]
             if ev[0] == R.OPEN:
                 continue
+            g = verdict(g)
+            if g is None:
+                out.append(("result-shape", t))
+                continue
             if ev[0] == R.OK:
-                if not (isinstance(g, tuple) and g[0] is True):
+                if g[0] != "ok":
                     out.append(("rejected-valid", t))
                     continue
                 signed = bytes.fromhex(G.element_of(doc, t)["message"])[:R.QUOTE_LEN]
                 bad = None
-                if not (len(g) == 3 and g[2] is None and isinstance(g[1], dict)
-                        and g[1].get("message") == ev[1]["message"]):
+                if not (g[2] is None and isinstance(g[1], dict)
+                        and same_hex(g[1].get("message"), ev[1]["message"])):
                     bad = "value"
                 else:
                     # one reported object read in a sequence, then fresh objects read in other orders
@@ -798,7 +837,7 @@ class C07(Check):
                                       ("dict", "dict", "attrs"), ("raw", "repr", "dict", "attrs")):
                             r2 = fresh()
                             try:
-                                q2 = r2[1][t][1]["sgx_quote"]
+                                q2 = verdict(r2[1][t])[1]["sgx_quote"]
                             except Exception:   # noqa
                                 bad = "value-not-reproducible"
                                 break
@@ -808,10 +847,8 @@ class C07(Check):
                 if bad is not None:
                     out.append((bad, t))
             else:
-                if isinstance(g, tuple) and g[0] is True:
+                if g[0] == "ok":
                     out.append(("accepted-invalid", t))
-                elif not (isinstance(g, tuple) and len(g) == 2 and g[0] is False):
-                    out.append(("result-shape", t))
                 elif g[1] != ev[1]:
                     out.append(("first-failing-name", t))
         return out
